@@ -44,7 +44,9 @@ REQUIRED_REACH = ['MacroBodies.py:check_params_length',
 ELEM_KINDS = sorted(ELEMENTARY_FAMILIES)
 MACRO_KINDS = sorted(MACRO_FAMILIES)
 CLASSES = (['tr-m-minus1:' + a for a in ('surf-tr', 'trcl-num', 'fill-num',
-                                         'trcl-inline13', 'fill-inline13')]
+                                         'trcl-inline13', 'fill-inline13',
+                                         'trcl-star13', 'fill-star13',
+                                         'star-tr-card')]
            + ['lattice-no-option', 'lattice-wrong-dim', 'lattice-extra-range']
            + [f'surf-few:{k}' for k in ELEM_KINDS]
            + [f'surf-many:{k}' for k in ELEM_KINDS]
@@ -116,6 +118,44 @@ def build_pair(case):
             bad = copy.deepcopy(deck)
             bad.trs[0].mflag = -1
             return deck, bad, f'TR{trc.id} m=-1 (fill)'
+        if arg == 'star-tr-card':
+            deck = c04.build(_Sub(case, f'{rng.choice(["surf-tr", "trcl-num"])}'
+                                  '|generic'))
+            trc = deck.trs[0]
+            import math
+            degs = [math.degrees(math.acos(max(-1.0, min(1.0, float(v)))))
+                    for v in trc.motion.b.reshape(9)]
+            trc.entries, trc.starred, trc.mflag = degs, True, 1
+            bad = copy.deepcopy(deck)
+            bad.trs[0].mflag = -1
+            return deck, bad, f'*TR{trc.id} m=-1'
+        if arg == 'trcl-star13':
+            deck = c04.build(_Sub(case, 'trcl-star|generic'))
+            for cel in deck.cells:
+                if cel.trcl is not None:
+                    cel.trcl.entries = list(cel.trcl.entries) + [1]
+            bad = copy.deepcopy(deck)
+            for cel in bad.cells:
+                if cel.trcl is not None:
+                    cel.trcl.entries[-1] = -1
+            return deck, bad, 'inline *TRCL m=-1'
+        if arg == 'fill-star13':
+            deck = gen_univ.build(rng, 'fill-star')
+            hit = False
+            for cel in deck.cells:
+                if cel.fill is not None and cel.fill.tr is not None and \
+                        cel.fill.tr.starred and len(cel.fill.tr.entries) == 9:
+                    cel.fill.tr.entries = list(cel.fill.tr.entries) + [1]
+                    hit = True
+            if not hit:
+                return None
+            bad = copy.deepcopy(deck)
+            for cel in bad.cells:
+                if cel.fill is not None and cel.fill.tr is not None and \
+                        len(cel.fill.tr.entries) == 10:
+                    cel.fill.tr.entries[-1] = -1
+                    break
+            return deck, bad, 'inline *FILL transformation m=-1'
         if arg == 'trcl-inline13':
             deck = c04.build(_Sub(case, 'trcl-inline13|generic'))
             bad = copy.deepcopy(deck)
